@@ -101,7 +101,28 @@ def Mode.name : Mode → String
   | .rel => "rel" | .zpi => "zpi" | .iax => "iax"
 
 def Mn.name : Mn → String
-  | .RMB n => s!"RMB{n}" | .SMB n => s!"SMB{n}"
-  | m => (toString (repr m)).replace "Py65.Spec.Mn." ""
+  | .ADC => "ADC" | .AND => "AND" | .ASL => "ASL" | .BCC => "BCC" | .BCS => "BCS" | .BEQ => "BEQ" | .BIT => "BIT" | .BMI => "BMI"
+  | .BNE => "BNE" | .BPL => "BPL" | .BRK => "BRK" | .BVC => "BVC" | .BVS => "BVS" | .CLC => "CLC" | .CLD => "CLD" | .CLI => "CLI"
+  | .CLV => "CLV" | .CMP => "CMP" | .CPX => "CPX" | .CPY => "CPY" | .DEC => "DEC" | .DEX => "DEX" | .DEY => "DEY" | .EOR => "EOR"
+  | .INC => "INC" | .INX => "INX" | .INY => "INY" | .JMP => "JMP" | .JSR => "JSR" | .LDA => "LDA" | .LDX => "LDX" | .LDY => "LDY"
+  | .LSR => "LSR" | .NOP => "NOP" | .ORA => "ORA" | .PHA => "PHA" | .PHP => "PHP" | .PLA => "PLA" | .PLP => "PLP" | .ROL => "ROL"
+  | .ROR => "ROR" | .RTI => "RTI" | .RTS => "RTS" | .SBC => "SBC" | .SEC => "SEC" | .SED => "SED" | .SEI => "SEI" | .STA => "STA"
+  | .STX => "STX" | .STY => "STY" | .TAX => "TAX" | .TAY => "TAY" | .TSX => "TSX" | .TXA => "TXA" | .TXS => "TXS" | .TYA => "TYA"
+  | .BRA => "BRA" | .PHX => "PHX" | .PHY => "PHY" | .PLX => "PLX" | .PLY => "PLY" | .STZ => "STZ" | .TRB => "TRB" | .TSB => "TSB"
+  | .WAI => "WAI"
+  | .RMB n => "RMB" ++ digit n
+  | .SMB n => "SMB" ++ digit n
+where digit (n : Nat) : String := String.singleton (Char.ofNat (48 + n))
+
+/-- The (mnemonic, mode) names a device's `disassemble` table must hold for opcode `n`. -/
+def tableEntry (v : Variant) (n : Nat) : String × String :=
+  match decode v (Int.ofNat n) with
+  | some (mn, mo) => (mn.name, mo.name)
+  | none => ("???", "imp")
+
+def expectedTable (v : Variant) : List (String × String) := (List.range 256).map (tableEntry v)
+
+/-- number of declared opcodes -/
+def declaredCount (v : Variant) : Nat := ((List.range 256).filter fun (n : Nat) => (decode v (Int.ofNat n)).isSome).length
 
 end Py65.Spec
